@@ -221,7 +221,7 @@ func (b *ByteBuffer) Read(dst []byte) (int, error) {
 		return 0, nil
 	}
 
-	if b.ri == 0 {
+	if b.ReadLen() == 0 {
 		return 0, io.EOF
 	}
 
